@@ -17,6 +17,8 @@ mod numchk;
 mod histchk;
 mod errchk;
 mod lawchk;
+mod exact;
+mod momchk;
 
 fn main() {
     let args: Vec<String> = std::env::args().collect();
@@ -46,6 +48,7 @@ fn main() {
         "qlaws" => lawchk::qlaws(&mut cfg, &mut rep),
         "layouts" => lawchk::layouts(&mut cfg, &mut rep),
         "nanview" => nanchk::nanview(&mut cfg, &mut rep),
+        "moments" => momchk::moments(&mut cfg, &mut rep),
         _ => {
             eprintln!("unknown enumeration {}", name);
             std::process::exit(4);
